@@ -543,7 +543,10 @@ def r11(ctx):
         if b.crate != "turmoil_fs" or "::tests::" in b.id:
             continue
         for bb, t in b.calls(re.compile(r"(::|>::)(last_mut|first_mut|iter_mut|get_mut|index_mut|split_last_mut|split_first_mut|swap|reverse|sort\w*|dedup\w*)$")):
-            if t["args"] and "field:" + FS + "pending" in Slicer(ctx.w).atoms(b, t["args"][0]):
+            # the container the call works on is the log itself (the receiver chain, not the provenance of an index / range argument:
+            # `window[dst_offset..][..len]` in read_file slices the caller's buffer with numbers that come from a record)
+            if t["args"] and "field:" + FS + "pending" in Slicer(ctx.w).atoms(b, t["args"][0]) and \
+                    (FS + "pending") in receiver_root(b, t["args"][0])[1]:
                 root = b
                 while root.parent and root.parent in ctx.w.bodies:
                     root = ctx.w.bodies[root.parent]
